@@ -163,4 +163,22 @@ def RectsOrderedList : List Geom → Prop
   | g :: gs => RectsOrdered g ∧ RectsOrderedList gs
 end
 
+/-- the ring invariant of `Polygon` (C18): every ring is closed -/
+def PolyClosed (p : Poly) : Prop :=
+  p.ext.head? = p.ext.getLast? ∧ ∀ h ∈ p.ints, h.head? = h.getLast?
+
+mutual
+/-- the geo-types invariants (C18) everywhere in the tree: polygon rings closed, `Rect` corners
+ordered -/
+def TypeInv : Geom → Prop
+  | .polygon p => PolyClosed p
+  | .multiPolygon ps => ∀ p ∈ ps, PolyClosed p
+  | .rect mn mx => mn.x ≤ mx.x ∧ mn.y ≤ mx.y
+  | .collection gs => TypeInvList gs
+  | _ => True
+def TypeInvList : List Geom → Prop
+  | [] => True
+  | g :: gs => TypeInv g ∧ TypeInvList gs
+end
+
 end Geo.Proofs.C05L
